@@ -67,15 +67,15 @@ fn bisect_find_sha(
     }
 
     // Binary search loop
-    let mut start = start;
-    let mut end = end;
+    // Work in 64 bits: start + end and i + 1 overflow i32 for tables with
+    // more than 2^30 entries.
+    let mut start = start as i64;
+    let mut end = end as i64;
     loop {
         if start > end {
             break;
         }
-        // Computed in 64 bits: start + end overflows i32 for tables with
-        // more than 2^30 entries.
-        let i = ((start as i64 + end as i64) / 2) as i32;
+        let i = (start + end) / 2;
 
         let file_sha = unpack_name.call1(py, (i,))?;
         if !py_is_sha(&file_sha, py)? {
@@ -90,7 +90,7 @@ fn bisect_find_sha(
                 end = i - 1;
             }
             std::cmp::Ordering::Equal => {
-                return Ok(Some(i));
+                return Ok(Some(i as i32));
             }
         }
     }
